@@ -46,7 +46,7 @@ PANEL_TRANSFORMERS = {
     "DWTTransformer": {"num_levels": [1, 2]}, "HOG1DTransformer": {}, "TSInterpolator": {"length": [8, 20]},
     "PaddingTransformer": {"pad_length": [None, None, 40]}, "Tabularizer": {}, "RandomIntervalSegmenter": {"n_intervals": [2, "sqrt"]},
     "SlidingWindowSegmenter": {"window_length": [3, 5]}, "SlopeTransformer": {"num_intervals": [2, 4]},
-    "DerivativeSlopeTransformer": {}, "PlateauFinder": {"value": [0.0]},
+    "DerivativeSlopeTransformer": {}, "PlateauFinder": {"value": [0.0, "default", "default"]},
     "RandomIntervalFeatureExtractor": {"n_intervals": [2, "sqrt"]},
     "TruncationTransformer": {"lower": [None, None, 8, 12]},
     "MatrixProfile": {"m": [4]}, "SFA": {"word_length": [4], "window_size": [8]},
@@ -131,6 +131,9 @@ def generate(prop, rng, tier):
                     [-2, -1, 0], [-1, 1, 2], [0], [-3, 2], [-(scen["n"] - 2), -3], [-(scen["n"] - 1)]])})
             else:
                 calls.append({"m": "predict", "fh": sorted(rng.sample(range(1, 8), rng.randint(1, 3)))})
+                if rng.random() < 0.3:
+                    # the horizon as a caller-owned numpy array, written in descending order
+                    calls[-1]["fh_form"] = "array_desc"
     elif cat == "series":
         r0 = rng.random()
         if r0 < 0.1:
@@ -288,10 +291,13 @@ def deep_equal(a, b):
 
 
 # ------------------------------------------------------------------ data
-def make_panel(seed, n, cols, length, container, index_kind, sep=1.5):
+def make_panel(seed, n, cols, length, container, index_kind, sep=1.5, nan_runs=False):
     rs = np.random.RandomState(seed)
     arr = np.round(rs.normal(size=(n, cols, length)) + np.arange(length) * 0.05, 4)
     arr[: n // 2, :, : length // 3] += sep  # two (more or less) separable classes
+    if nan_runs:
+        arr[::2, :, 3:6] = np.nan      # runs of missing values (plateaus of NaN)
+        arr[1::3, :, length - 4:length - 2] = np.nan
     y = np.array(["a"] * (n // 2) + ["b"] * (n - n // 2))
     yr = np.round(arr[:, 0, :].mean(axis=1) + rs.normal(size=n) * 0.1, 4)
     if container == "numpy3d":
@@ -338,7 +344,7 @@ def build_series_transformer(spec):
 def build_named(name, params, n_jobs, random_state, shared=False):
     import inspect
     cls = _find_class(name)
-    kw = {k: v for k, v in params.items() if not k.startswith("_")}
+    kw = {k: v for k, v in params.items() if not k.startswith("_") and v != "default"}
     sig = inspect.signature(cls.__init__).parameters
     if "n_jobs" in sig:
         kw["n_jobs"] = n_jobs
@@ -420,10 +426,13 @@ def execute(prop, scen):
             return est.fit(args[0], fh=scen["fh_fit"])
 
         def call_args(c):
+            if c.get("fh_form") == "array_desc":
+                return (np.array(sorted(c["fh"], reverse=True)),)
             return ()
 
         def do_call(est, c, args):
-            fh = None if (scen["fh_fit"] and C.needs_fh_at_fit(scen["spec"])) else list(c["fh"])
+            fh = None if (scen["fh_fit"] and C.needs_fh_at_fit(scen["spec"])) else \
+                (args[0] if args else list(c["fh"]))
             return est.predict(fh)
 
         def other_train():
@@ -473,9 +482,13 @@ def execute(prop, scen):
     else:
         p = scen["panel"]
         sep = p.get("sep", 1.5)
-        X, yc, yr = make_panel(d["seed"], p["n"], p["cols"], p["len"], scen["container"], d["index"], sep)
+        nanr = scen["name"] == "PlateauFinder" and scen["params"].get("value") == "default"
+        if nanr:
+            res.probe("triggering_condition_present")
+        X, yc, yr = make_panel(d["seed"], p["n"], p["cols"], p["len"], scen["container"], d["index"], sep,
+                               nan_runs=nanr)
         Xte, _, _ = make_panel(d["seed"] + 1, max(4, p["n"] // 2), p["cols"], p["len"],
-                               scen["container"], d["index"], sep)
+                               scen["container"], d["index"], sep, nan_runs=nanr)
         target = yr if cat == "regressor" else yc
         res.probe({"nested_series": "nested_series_cells", "nested_array": "nested_array_cells",
                    "numpy3d": "numpy3d_input"}[scen["container"]])
